@@ -43,10 +43,56 @@ def replay_time_match(info, ce):
     return dict(status='not-reproduced', detail='time_match aligned every signal on the battery (lags=%s, master=%d)' % (lags, master))
 
 
+def replay_well_formed(info, ce):
+    """two-signal cluster, second record `extra` samples longer and lagging by `lag`: after the cluster-level mutator every signal's values
+    is a numeric 1-d ndarray whose length equals npts, time == dt*arange(npts), and the caller's arrays are unchanged"""
+    import eqsig
+    rng = np.random.RandomState(11)
+    lag, master, extra, which = info['lag'], info['master'], info['extra'], info['which']
+    dtype = int if info.get('dtype') == 'int' else float
+    for n in (6, 12, 50):
+        x = (rng.randn(n) * 10).astype(dtype)
+        y = (rng.randn(n + extra) * 10).astype(dtype)
+        for i in range(n + extra):
+            if 0 <= i - lag < n:
+                y[i] = x[i - lag]
+        arrs = [x, y] if master == 0 else [y, x]
+        keep = [a.copy() for a in arrs]
+        c = eqsig.Cluster(arrs, 0.5, master_index=master)
+        try:
+            if which == 'time_match':
+                c.time_match(steps=2)
+            else:
+                c.same_start()
+        except Exception as e:
+            return dict(status='confirmed', observed={'raises': type(e).__name__, 'message': str(e)[:200]}, detail='%s raised on a valid cluster' % which,
+                        input={'signals': [a.tolist() for a in keep], 'master_index': master})
+        bad = []
+        for j in range(2):
+            sg = c.signal_by_index(j)
+            v = sg.values
+            if not isinstance(v, np.ndarray) or v.ndim != 1 or v.dtype.kind not in 'fiu':
+                bad.append('signal %d: values is %s' % (j, type(v).__name__))
+                continue
+            if len(v) != sg.npts:
+                bad.append('signal %d: len(values)=%d but npts=%d' % (j, len(v), sg.npts))
+            t = np.asarray(sg.time)
+            if t.shape != (len(v),) or not np.allclose(t, sg.dt * np.arange(len(v))):
+                bad.append('signal %d: time has %d entries for %d values' % (j, len(t), len(v)))
+            if not np.array_equal(arrs[j], keep[j]):
+                bad.append('caller array %d was modified' % j)
+        if bad:
+            return dict(status='confirmed', observed={'problems': bad}, detail='Cluster.%s, second record %d samples longer, lag %d, master_index=%d: %s' % (which, extra, lag, master, bad),
+                        input={'signals': [a.tolist() for a in keep], 'master_index': master, 'dt': 0.5})
+    return dict(status='not-reproduced', detail='every signal stays well formed on the battery (%s, lag=%d, extra=%d, master=%d)' % (which, lag, extra, master))
+
+
 def replay(info, ce):
     import eqsig
     if info.get('op') == 'time_match':
         return replay_time_match(info, ce)
+    if info.get('op') == 'well-formed':
+        return replay_well_formed(info, ce)
     rng = np.random.RandomState(3)
     k, master, n = info['k'], info['master'], info.get('n', 40)
     arrs = [rng.randn(n) + 3 * j for j in range(k)]
